@@ -143,6 +143,11 @@ impl<C: Suite> Model for M14<C> {
                     a.push(Act::Fault(0));
                     a.push(Act::Fault(1));
                 }
+                if mask.count_ones() >= 2 {
+                    // order of presentation: reversed, rotated
+                    a.push(Act::Fault(2));
+                    a.push(Act::Fault(3));
+                }
                 a
             }
             St::Proof { dev: None, .. } => {
@@ -251,11 +256,15 @@ impl<C: Suite> Model for M14<C> {
                     .map(|(_, s)| ElGamalDecryptionShare(<C as BlsSignatureCore>::public_key_share_with_generator(&s.0, ct.c1).unwrap()))
                     .collect();
                 let cnt = ds.len();
+                let reorder = matches!(fault, Some(2) | Some(3));
                 match fault {
                     Some(0) => ds.push(ds[0].clone()),
-                    Some(_) => *ds[0].0.identifier_mut() = 0,
+                    Some(1) => *ds[0].0.identifier_mut() = 0,
+                    Some(2) => ds.reverse(),
+                    Some(_) => ds.rotate_left(1),
                     None => {}
                 }
+                let fault = if reorder { &None } else { fault };
                 let r = guard(|| ElGamalDecryptionKey::<C>::from_shares(&ds));
                 o.calls(2);
                 if r.is_err() {
